@@ -11,6 +11,7 @@ package main
 //    persists for the whole path (i.e. across a simulated restart); each Put/Delete is one durable effect.
 
 import (
+	"strings"
 	"fmt"
 	"go/types"
 	"path/filepath"
@@ -306,6 +307,13 @@ func registerIO(P *Program) {
 	}
 	r(ldb+".OpenFile", func(in *Interp, caller *frame, fn *ssa.Function, args []Value) Value {
 		path := args[0].(*Term)
+		if path.IsConst() {
+			// "<dir>#<anything>" names a byte-for-byte copy of <dir> taken when the process died (harness convention for
+			// restarts: natively the directory is copied, here the copy shares the durable content)
+			if i := strings.Index(path.s, "#"); i >= 0 {
+				path = in.ts.Str(path.s[:i])
+			}
+		}
 		key := "leveldb:" + in.ts.Print(path)
 		db, ok := in.hooks[key].(*dbObj)
 		if !ok {
@@ -349,6 +357,62 @@ func registerIO(P *Program) {
 		k := in.sliceStr(args[1].(SliceV))
 		in.mapDelete(db.m, strT, k)
 		in.effect("db.Delete")
+		return Iface{}
+	})
+	// write batches: recorded per *Batch, applied atomically by DB.Write
+	type batchOp struct {
+		del bool
+		k   *Term
+		v   SliceV
+	}
+	batchOf := func(in *Interp, v Value) *[]batchOp {
+		p, ok := v.(Ptr)
+		if !ok || p == nil {
+			in.rtPanic("nil *leveldb.Batch")
+		}
+		key := fmt.Sprintf("ldbbatch:%p", p)
+		b, _ := in.hooks[key].(*[]batchOp)
+		if b == nil {
+			b = &[]batchOp{}
+			in.hooks[key] = b
+		}
+		return b
+	}
+	r("(*"+ldb+".Batch).Put", func(in *Interp, caller *frame, fn *ssa.Function, args []Value) Value {
+		b := batchOf(in, args[0])
+		v := args[2].(SliceV)
+		if v.Blob == nil {
+			v = SliceV{A: append([]Value{}, v.A...)}
+		}
+		*b = append(*b, batchOp{k: in.sliceStr(args[1].(SliceV)), v: v})
+		return nil
+	})
+	r("(*"+ldb+".Batch).Delete", func(in *Interp, caller *frame, fn *ssa.Function, args []Value) Value {
+		b := batchOf(in, args[0])
+		*b = append(*b, batchOp{del: true, k: in.sliceStr(args[1].(SliceV))})
+		return nil
+	})
+	r("(*"+ldb+".Batch).Reset", func(in *Interp, caller *frame, fn *ssa.Function, args []Value) Value {
+		b := batchOf(in, args[0])
+		*b = nil
+		return nil
+	})
+	r("(*"+ldb+".Batch).Len", func(in *Interp, caller *frame, fn *ssa.Function, args []Value) Value {
+		return in.ts.BV(64, uint64(len(*batchOf(in, args[0]))))
+	})
+	r("(*"+ldb+".DB).Write", func(in *Interp, caller *frame, fn *ssa.Function, args []Value) Value {
+		db := dbOf(in, args[0])
+		in.yield("db.Write", db)
+		if p, ok := args[1].(Ptr); ok && p != nil {
+			for _, op := range *batchOf(in, args[1]) {
+				if op.del {
+					in.mapDelete(db.m, strT, op.k)
+				} else {
+					in.mapSet(db.m, strT, op.k, op.v)
+				}
+			}
+		}
+		in.effect("db.Write")
 		return Iface{}
 	})
 	r("(*"+ldb+".DB).Close", func(in *Interp, caller *frame, fn *ssa.Function, args []Value) Value { return Iface{} })
